@@ -112,6 +112,8 @@ def fresh_locals(repo, fi):
         vals = assigned_value(fi.node, name)
         ok = bool(vals)
         for st, v, idx in vals:
+            if isinstance(idx, int) and not _plain_unpack(st, v):
+                idx = 'unpack'
             if not _is_fresh_expr(repo, fi, v, idx, fresh):
                 ok = False
         if ok:
@@ -119,7 +121,22 @@ def fresh_locals(repo, fi):
     return fresh
 
 
+def _plain_unpack(st, v):
+    """``a, b = x, y``: a display of the same length on both sides, no stars -- positions correspond."""
+    if not isinstance(st, ast.Assign) or not isinstance(v, (ast.Tuple, ast.List)):
+        return False
+    for t in st.targets:
+        if isinstance(t, (ast.Tuple, ast.List)):
+            if len(t.elts) != len(v.elts) or any(isinstance(e, ast.Starred) for e in list(t.elts) + list(v.elts)):
+                return False
+    return True
+
+
 def _is_fresh_expr(repo, fi, v, idx, fresh):
+    if isinstance(idx, int) and isinstance(v, (ast.Tuple, ast.List)) and 0 <= idx < len(v.elts) and \
+            not any(isinstance(e, ast.Starred) for e in v.elts):
+        # a, b = list(x), list(y): position by position (targets without a star: assigned_value gives plain indices)
+        return _is_fresh_expr(repo, fi, v.elts[idx], None, fresh)
     if idx is not None:
         return False
     if isinstance(v, (ast.List, ast.Dict, ast.Set, ast.Tuple, ast.ListComp, ast.DictComp, ast.SetComp, ast.GeneratorExp,
@@ -161,6 +178,29 @@ def callee_of(repo, fi, call):
     except Exception:
         return None
     return None
+
+
+def fresh_at(repo, fi, fl, name, stmt):
+    """At statement ``stmt`` the local ``name`` can only hold an object allocated in this activation: every definition
+    reaching the statement assigns a fresh expression (flow-sensitive companion of ``fresh_locals``)."""
+    ds = fl.reaching(name, stmt)
+    if not ds:
+        return False
+    a = fi.node.args
+    fresh = fresh_locals(repo, fi)
+    for d in ds:
+        if d.kind == 'entry':
+            if a.kwarg is not None and a.kwarg.arg == name:
+                continue
+            return False
+        v, _ = fl.unpacked(d)
+        if v is None:
+            return False
+        if isinstance(v, ast.Name) and v.id in fresh and v.id != name:
+            continue
+        if not _is_fresh_expr(repo, fi, v, None, fresh):
+            return False
+    return True
 
 
 def returns_fresh(repo, fi, _depth=0):
@@ -234,6 +274,8 @@ def _transparent(v):
     getattr with constant name, constant subscripts."""
     if isinstance(v, (ast.Name, ast.Constant)):
         return True
+    if isinstance(v, (ast.List, ast.Tuple, ast.Dict)) and not (v.keys if isinstance(v, ast.Dict) else v.elts):
+        return True     # empty display (a getattr default)
     if isinstance(v, ast.Attribute):
         return _transparent(v.value)
     if isinstance(v, ast.Subscript):
@@ -255,6 +297,7 @@ class Flow(object):
         self.defs = {}
         self._conds = {}
         self._reach = {}
+        self.subst = {}      # slot key -> expression a rule has established the slot to stand for (used by resolve)
         self._collect()
 
     # -- definitions ---------------------------------------------------------------------------------
@@ -341,6 +384,12 @@ class Flow(object):
         for d in ds:
             def_nodes.update(self._nodes(d))
         avoid = def_nodes - at_nodes
+        # between a definition and a use that it reaches nothing re-binds the name, so every test of the name's
+        # truth on the way has the outcome known to hold at the use: branches of the other outcome are not on the path
+        if at != 'exit' and ds:
+            want = [p for t, p in self.conds(at) if norm(t) == key]
+            if want and all(p is want[0] for p in want):
+                avoid = avoid | set(nid for nid, t, p in cfg.branches() if norm(t) == key and p is not want[0])
         out = []
         for d in ds:
             srcs = [m for n in self._nodes(d) for m in cfg.succ[n] if (n, m) not in cfg.exc_edges or n in cfg.raise_nodes]
@@ -366,9 +415,14 @@ class Flow(object):
 
     # -- resolution ----------------------------------------------------------------------------------
     def single_def(self, key, at):
+        """The one assignment that defines ``key`` at ``at`` (a Def whose ``value`` names the assigned expression), or None."""
         ds = self.reaching(key, at)
-        if len(ds) == 1 and ds[0].kind == 'assign' and ds[0].idx is None:
-            return ds[0]
+        if len(ds) == 1 and ds[0].kind == 'assign':
+            if ds[0].idx is None:
+                return ds[0]
+            v, vat = self.unpacked(ds[0])
+            if v is not None:
+                return Def(key, vat, v, None, 'assign')
         return None
 
     def resolve(self, expr, at=None, _depth=0, _seen=()):
@@ -383,6 +437,8 @@ class Flow(object):
             if isinstance(e, (ast.Lambda, ast.ListComp, ast.SetComp, ast.DictComp, ast.GeneratorExp)):
                 return copy.deepcopy(e)
             k = slot_key(e)
+            if k is not None and k in self.subst and isinstance(getattr(e, 'ctx', None), ast.Load):
+                return copy.deepcopy(self.subst[k])
             if k is not None and isinstance(getattr(e, 'ctx', None), ast.Load) and _depth < 10 and k not in _seen and at is not None:
                 d = self.single_def(k, at)
                 if d is not None and _transparent(d.value):
@@ -408,9 +464,81 @@ class Flow(object):
         """[(canonical text, polarity, test)] for path conditions (tests are resolved where they are evaluated)."""
         return [(self.text(t), p, t) for t, p in conds]
 
+    def flow_conds(self, d, at):
+        """Branch conditions that hold on every path on which definition ``d`` is still the current one at ``at``
+        (``x = a`` ... ``if not ok(x): x = b`` ... use: ``a`` arrives only through the false branch of the test)."""
+        from .cfg import expand_conds
+        if d.stmt is None or d.kind == 'entry':
+            return []
+        ck = ('fc', id(d.stmt), d.key, id(at) if at != 'exit' else 'exit')
+        if ck in self._reach:
+            return self._reach[ck]
+        cfg = self.cfg
+        at_nodes = set(self._at_nodes(at))
+        def_nodes = set()
+        for x in self.defs.get(d.key, []):
+            def_nodes.update(self._nodes(x))
+        avoid0 = def_nodes - at_nodes
+        srcs = [m for n in self._nodes(d) for m in cfg.succ[n] if (n, m) not in cfg.exc_edges or n in cfg.raise_nodes]
+        fwd = cfg.reach(srcs, avoid=avoid0)
+        out = []
+        if at_nodes & fwd:
+            region = fwd & cfg.coreach(at_nodes, avoid=avoid0)
+            seen = set()
+            for nd in cfg.nodes:
+                if nd.kind != 'branch' or nd.id not in region or (id(nd.test), nd.pol) in seen:
+                    continue
+                seen.add((id(nd.test), nd.pol))
+                b = set(cfg.branch_nodes(nd.test, nd.pol))
+                nb = set(cfg.branch_nodes(nd.test, not nd.pol))
+                if at_nodes & cfg.reach(srcs, avoid=avoid0 | b):
+                    continue            # the use can be reached without taking this branch
+                if (nb & fwd) and at_nodes & cfg.reach(list(nb & fwd), avoid=avoid0 | b):
+                    continue            # ... or the last evaluation on the way may have had the other outcome
+                after = [m for x in b for m in cfg.succ[x]]
+                mid = (cfg.reach(after, avoid=avoid0 | b) & cfg.coreach(at_nodes, avoid=avoid0 | b)) - at_nodes
+                if cfg._kills(nd.test, mid):
+                    continue
+                out.append((nd.test, nd.pol))
+            out = expand_conds(out)
+        self._reach[ck] = out
+        return out
+
+    def unpacked(self, d):
+        """(value expr, statement) a definition binds -- for ``a, b = t`` with ``t`` a local holding a display of the same
+        length (``t = (x, y)``), the element at the position; (None, None) when the value cannot be named."""
+        if d.kind != 'assign':
+            return None, None
+        if d.idx is None:
+            return d.value, d.stmt
+        if not isinstance(d.idx, int) or d.idx < 0:
+            return None, None
+        v, at = d.value, d.stmt
+        for _ in range(4):
+            k = slot_key(v)
+            if k is None:
+                break
+            sd = self.single_def(k, at)
+            if sd is None:
+                return None, None
+            v, at = sd.value, sd.stmt
+        if isinstance(v, (ast.Tuple, ast.List)) and not any(isinstance(e, ast.Starred) for e in v.elts):
+            tgt = [t for t in getattr(d.stmt, 'targets', []) if isinstance(t, (ast.Tuple, ast.List))]
+            if tgt and all(len(t.elts) == len(v.elts) and not any(isinstance(e, ast.Starred) for e in t.elts) for t in tgt):
+                return v.elts[d.idx], at
+        return None, None
+
     def leaves(self, expr, at, _conds=(), _depth=0):
         """Values that can flow into ``expr`` evaluated at ``at`` (statement or 'exit'), following assignments of
-        locals / self-attributes backwards through every reaching definition."""
+        locals / self-attributes backwards through every reaching definition; a conditional expression contributes
+        both arms with the test added to the conditions."""
+        from .cfg import expand_conds
+        if isinstance(expr, ast.IfExp) and _depth <= 10:
+            out = []
+            for arm, pol in ((expr.body, True), (expr.orelse, False)):
+                extra = [c for c in expand_conds([(expr.test, pol)]) if c not in _conds]
+                out.extend(self.leaves(arm, at, list(_conds) + extra, _depth + 1))
+            return out
         k = slot_key(expr)
         if k is None or _depth > 10:
             return [Leaf(expr, at, list(_conds))]
@@ -422,10 +550,14 @@ class Flow(object):
             cs = list(_conds) + [c for c in (self.conds(d.stmt) if d.stmt is not None else []) if c not in _conds]
             if d.kind == 'entry':
                 out.append(Leaf(expr, at, cs))      # the parameter / the value on entry itself
-            elif d.kind != 'assign' or d.idx is not None:
+                continue
+            if len(ds) > 1:
+                cs = cs + [c for c in self.flow_conds(d, at) if c not in cs]
+            v, vat = self.unpacked(d)
+            if v is None:
                 out.append(Leaf(expr if d.value is None or d.kind != 'assign' else d.value, d.stmt, cs, opaque=True))
             else:
-                out.extend(self.leaves(d.value, d.stmt, cs, _depth + 1))
+                out.extend(self.leaves(v, vat, cs, _depth + 1))
         return out
 
     def aliases(self, key):
